@@ -52,7 +52,8 @@ NA_LIKE = ['NA', 'N/A', 'null', 'NULL', 'None', 'nan', 'NaN', 'n/a', '#N/A',
 
 DATE_ORDERS = ['dMy', 'Mdy', 'yMd']
 TIME_FORMS = ['', 'HH:mm', 'HH:mm:ss', 'HH:mm:ss.S', 'HH:mm:ss.SS',
-              'HH:mm:ss.SSS', 'HHmmss', 'HHmm']
+              'HH:mm:ss.SSS', 'HHmmss', 'HHmm', 'HH:mm:ss:SSS',
+              'HH:mm:ss SSS', 'HH.mm.ss']
 
 
 def date_patterns():
